@@ -141,5 +141,9 @@ def run(repo, check):
     share(check, repo, c01.rule_r6, 'C03.R8', 'decoder arithmetic of the numeric primitives (shared with C01.R6)')
     from sa.rules import columns
     share(check, repo, columns.rule_columns, 'C03.R9', args=(check.tier, 'C03.R9'))
+    from sa.rules import c07 as _c07, c08 as _c08
+    share(check, repo, _c07.rule_r6, 'C03.R10', 'marker values are written with the coding of the element the bitmap of the subset being written designates (shared with '
+          'C07.R6)', keep=lambda f: 'Encoder' in f.key)
+    share(check, repo, _c08.rule_r5, 'C03.R11', 'an encoder that compiles templates never writes a message with the template of another table version (shared with C08.R5)')
     check.assumptions = ['range refusal itself is bitstring\'s: a value handed to it unchanged that does not fit the field raises (trusted base)',
                          'the half-unit quantisation bound and the byte-identity of repeated round trips are runtime facts and are not decided']
